@@ -66,6 +66,20 @@ Print Assumptions C17_add_vertex_spec.
 Example C17_wf_slots_instance : wf_slots hollow_tetrahedron.
 Proof. exact wf_slots_instance. Qed.
 
+(* B1''. The transcribed add_edge adds exactly the edge (and registers as blockers the triangles it would close): for a missing
+   edge ab of a state whose blockers have >= 3 distinct vertices and whose edges are stored as (smaller, larger). *)
+Theorem C17_add_edge_spec : forall (c : cplx) (a b : Z) (t : simplex),
+  a <> b -> has_edge c a b = false -> wf_blk c -> wf_edg c -> inc t ->
+  contains (add_edge c a b) t
+  = contains c t || (seqb t [Z.min a b; Z.max a b] && contains_vertex c a && contains_vertex c b).
+Proof. exact add_edge_spec. Qed.
+Print Assumptions C17_add_edge_spec.
+Example C17_add_edge_hypotheses_instance :
+  let c := add_vertex hollow_tetrahedron in
+  has_edge c 0 4 = false /\ wf_blk c /\ wf_edg c /\ inc [0; 4] /\ contains (add_edge c 0 4) [0; 4] = true /\
+  contains (add_edge (add_edge c 0 4) 1 4) [0; 1; 4] = false.
+Proof. exact add_edge_hypotheses_instance. Qed.
+
 (* B2. The transcribed add_blocker deletes exactly the cofaces of the blocker, in every state. *)
 Theorem C17_add_blocker_spec : forall (c : cplx) (sigma t : simplex), (3 <= length sigma)%nat -> NoDup sigma ->
   contains (add_blocker c sigma) t = contains c t && negb (ssub sigma t).
